@@ -10,7 +10,7 @@ Line protocol for the C05 model (one s-expression in, one out):
   (macro NAME E) -> (ok E') | (err KIND)          E' = the asserted statement
   (den E)        -> none | (n K) | (i K) | (q NUM DEN) | (b T|F)     (atoms: no value)
   (wt E)         -> T | F
-  (ivl E ((NAME N D N D N D N D) ...) (N D N D)) -> (ok N D N D) | (err KIND)      [bnd: the same for evalBounds]
+  (ivl E ((NAME N D N D N D N D) ...) (N D N D)) -> (ok N D N D) | (err KIND)      [bnd: the same for evalBounds; cineq: acceptConstInequality -> (ok E') | (err KIND)]
         ivEval with exact rational interval arithmetic, the recorded calls NAME(arg lo, arg hi) = (res lo, res hi) of
         exp log sqrt sin cos, and the interval used for pi
   (ineq REL N D N D N D N D) -> T | F   REL = eq ne lt le gt ge; bounds lo1 hi1 lo2 hi2 as num den
@@ -177,6 +177,20 @@ def handle (line : String) : String :=
     | some r, some lo1, some hi1, some lo2, some hi2 => toString (Sexp.ofBool (intervalAccept r lo1 hi1 lo2 hi2))
     | _, _, _, _, _ => "bad-op"
   | some (.list [.atom which, e, .list rows, .list [pa, pb, pc, pd]]) =>
+    if which == "cineq" then
+      (let q (n d : Sexp) : Option Rat := do
+        let n ← n.toInt?
+        let d ← d.toNat?
+        if d == 0 then none else some (mkRat n d)
+      let row : Sexp → Option (String × Iv × Iv)
+        | .list [.atom nm, a, b, c, d, e, f, g, h] => do
+          some (nm, ((← q a b), (← q c d)), ((← q e f), (← q g h)))
+        | _ => none
+      match exprOf e, rows.mapM row, q pa pb, q pc pd with
+      | some x, some tbl, some plo, some phi =>
+        resTo (fun th => exprTo th.prop) (acceptConstInequality (tablePrims tbl (plo, phi)) x)
+      | _, _, _, _ => "bad-op")
+    else
     if which != "ivl" && which != "bnd" then "bad-op" else
     let q (n d : Sexp) : Option Rat := do
       let n ← n.toInt?
